@@ -173,8 +173,15 @@ def job(cfg):
         plain = lambda pd: samp.propagate_phaseless(ham, hd, prop, pd, trial, wd)[0]
     streams = range(S)
     n_nonsmooth = 0
+    # non-initial start state for every second stream: the population after one plain sampler block (distinct walkers,
+    # uneven weights, overlaps as that block left them) -- on a fresh population all walkers equal the trial determinant
+    # and whole classes of derivative terms cancel
+    pd_adv = samp.propagate_phaseless(ham, hd, prop, dict(samplers.copy_pd(pd0), key=vrng.key(1)), trial, wd)[1]
+    pd_adv = {k: v for k, v in pd_adv.items() if k in pd0}
     for s in streams:
-        pd = samplers.copy_pd(pd0)
+        pd = samplers.copy_pd(pd0 if s % 2 == 0 else pd_adv)
+        if s % 2 == 1:
+            res.guard("streams_from_a_non_initial_population", 1)
         pd["key"] = vrng.key(s)
         e_r, G = rev(pd)
         G = np.asarray(G)
@@ -303,7 +310,7 @@ def run(ctx):
     ctx.assume("derivatives are linear in the observable, so the basis decides every observable")
     ctx.assume("finite-difference comparison only where the primal itself is smooth (two FD steps agree); skipped streams are counted")
     ctx.pmap(job, configs(ctx.tier, ctx.seed), tasks_per_child=2)
-    ctx.require_guard("fd_comparisons", "trace_checked", "onebody_response_checked", "plain_compared", "streams", "coupled_hamiltonian_compared")
+    ctx.require_guard("fd_comparisons", "trace_checked", "onebody_response_checked", "plain_compared", "streams", "coupled_hamiltonian_compared", "streams_from_a_non_initial_population")
 
 
 def replay(case):
